@@ -30,6 +30,17 @@ pub fn run_virtual<F: Future>(f: F) -> F::Output {
     out
 }
 
+/// As `run_virtual`, with the I/O driver on: code under test may touch real sockets (a dial to a port
+/// where nothing listens fails at once; the virtual clock still only moves when nothing is runnable).
+pub fn run_virtual_io<F: Future>(f: F) -> F::Output {
+    let rt = tokio::runtime::Builder::new_current_thread().enable_all().start_paused(true).build().expect("runtime");
+    let out = rt.block_on(f);
+    drop(rt);
+    anytls_rs::verif::set_sched_source(None);
+    anytls_rs::verif::set_draw_source(None);
+    out
+}
+
 /// `Some(v)` if the future completes within the virtual watchdog, `None` if it blocks.
 pub async fn within<T>(d: Duration, f: impl Future<Output = T>) -> Option<T> {
     tokio::time::timeout(d, f).await.ok()
